@@ -113,6 +113,21 @@ def oracle(case):
     if is_raised(text):
         out.fail("write-raises|" + text.bucket, "%s\n%r" % (text, desc))
         return out
+    pre = case.get("pre")
+    if pre:
+        # the LASFile that is written was itself READ (with its own mnemonic_case) from a file of the other version
+        out.cls("pre-read-" + pre["mnemonic_case"])
+        mid = read_text(text, mnemonic_case=pre["mnemonic_case"])
+        if is_raised(mid):
+            out.fail("reread-raises|%s|v%s" % (mid.bucket, version), "%s\n%s" % (mid, text))
+            return out
+        version = pre["version"]
+        text = attempt(build.write_text, mid, version=version)
+        if is_raised(text):
+            out.fail("write-raises|" + text.bucket, "second write (version=%r) of the re-read file: %s" % (version, text))
+            return out
+        mc1 = pre["mnemonic_case"]
+        allrows = {sec: [[canon_case(r[0], mc1)] + list(r[1:]) for r in rows] for sec, rows in allrows.items()}
     back = read_text(text, mnemonic_case=mc)
     if is_raised(back):
         out.fail("reread-raises|%s|v%s" % (back.bucket, version), "%s\n%s" % (back, text))
@@ -135,8 +150,12 @@ def oracle(case):
                 skip |= {"unit"}
             if sec == "V" and up == "VERS":
                 skip |= {"value", "descr"}
+                if pre:
+                    skip |= {"orig", "sess"}  # the writer substitutes the standard (upper-case) VERS item
             if sec == "V" and up == "WRAP" and wrap is not None:
                 skip |= {"value", "descr"}
+                if pre:
+                    skip |= {"orig", "sess"}
             for f in ("orig", "sess", "unit", "value", "descr"):
                 if f in skip:
                     continue
@@ -278,8 +297,22 @@ def cases(draw):
         lambda t: t and not t.startswith("~")), max_size=3))
     desc = dict(version=vextra, well=well, params=params, curves=curves, other="\n".join(other_lines),
                 strt_unit=draw(st.sampled_from(["m", "M", "FT", ""])), null=draw(st.sampled_from([["f", "-9999.25"], ["f", "-999.25"], ["i", -999]])))
-    return dict(desc=desc, version=version, mnemonic_case=draw(st.sampled_from(["preserve", "upper", "lower"])),
+    case = dict(desc=desc, version=version, mnemonic_case=draw(st.sampled_from(["preserve", "upper", "lower"])),
                 wrap=draw(st.sampled_from([None, None, True, False])))
+    if draw(st.integers(0, 3)) == 0:
+        case["pre"] = dict(mnemonic_case=draw(st.sampled_from(["preserve", "upper", "lower"])),
+                           version=draw(st.sampled_from([1.2, 2])))
+        # case variants of the layout-table names would become duplicates of STRT/STOP/STEP after a normalising read
+        for row in desc["well"]:
+            if row[0].upper() in ("STRT", "STOP", "STEP", "NULL"):
+                row[0] = row[0] + "X"
+        # a blank-mnemonic line cannot carry a period: values that turn into floats are written as '1.5' the second time
+        from vlib.refparse import classify
+        for sec in ("well", "params", "version"):
+            for row in desc.get(sec, []):
+                if row[0].strip() == "" and row[2][0] == "s" and classify(row[2][1])[0] in ("float", "either"):
+                    row[2] = ["s", "x"]
+    return case
 
 
 def parts(tier):
